@@ -483,15 +483,18 @@ class StrOps:
             d = self._dom(ch)
             mcps = [cp for cp in multi if d.contains(cp)]
             took = False
-            for cp in mcps[:8]:
+            if len(mcps) > 8:
+                # only this path leaves the subset: the exploration goes on with the characters that map one to one
+                if ctx.branch(in_set(ch, ISet([(cp, cp) for cp in sorted(mcps)]))):
+                    raise Unsupported('%s() of a character with many length-changing candidates' % kind)
+                mcps = []
+            for cp in mcps:
                 if ctx.branch(Eq(ch, cp)):
                     out += list(multi[cp])
                     took = True
                     break
             if took:
                 continue
-            if len(mcps) > 8:
-                raise Unsupported('%s() of a character with many length-changing candidates' % kind)
             d = self._dom(ch)
             rr = [(lo, hi, dl) for lo, hi, dl in runs if not d.disjoint(ISet([(lo, hi)]))]
             if len(rr) > 60:
